@@ -234,6 +234,7 @@ type c16Gen struct {
 	qualUsed bool            // some reference was db-qualified
 	cteNames map[string]bool // lower-cased CTE names
 	feat     map[string]bool
+	plain    bool // no quotes, comments or FROM-keyword functions: the text the header fast path accepts
 }
 
 func (g *c16Gen) kw(words string) {
@@ -299,6 +300,9 @@ func (g *c16Gen) sep(required bool) string {
 	if !required && rapid.IntRange(0, 9).Draw(g.t, "optsep") < 6 {
 		return ""
 	}
+	if g.plain {
+		return rapid.SampledFrom([]string{" ", " ", " ", " ", "\n", "\t", "  ", "\n\t ", "\r\n"}).Draw(g.t, "plainsep")
+	}
 	switch k := rapid.IntRange(0, 99).Draw(g.t, "sep"); {
 	case k < 52:
 		return " "
@@ -332,8 +336,8 @@ func (g *c16Gen) render() string {
 		req := !(g.toks[i].kind == tkPunct || g.toks[i-1].kind == tkPunct)
 		// the keywords the rewriter scans for get a comment glued to them
 		// (no blank) noticeably often
-		if k := g.toks[i-1].kind; (k == tkWITH && rapid.IntRange(0, 2).Draw(g.t, "gluewith") == 0) ||
-			((k == tkFROM || k == tkJOIN || k == tkCTEAS) && rapid.IntRange(0, 5).Draw(g.t, "gluekw") == 0) {
+		if k := g.toks[i-1].kind; !g.plain && ((k == tkWITH && rapid.IntRange(0, 2).Draw(g.t, "gluewith") == 0) ||
+			((k == tkFROM || k == tkJOIN || k == tkCTEAS) && rapid.IntRange(0, 5).Draw(g.t, "gluekw") == 0)) {
 			seps[i] = g.gluedComment()
 			continue
 		}
@@ -412,6 +416,9 @@ func c16NeedsQuote(name string) bool {
 }
 
 func (g *c16Gen) ident(name string) string {
+	if g.plain && !c16NeedsQuote(name) {
+		return name
+	}
 	if c16NeedsQuote(name) || rapid.IntRange(0, 5).Draw(g.t, "quote") == 0 {
 		g.feat["quoted"] = true
 		return qIdent(name)
@@ -432,15 +439,19 @@ func (g *c16Gen) tableSource(avoid map[string]bool) c16Src {
 			continue
 		}
 		for _, n := range g.d.Names {
-			if avoid[n] {
+			if avoid[n] || (g.plain && (c16NeedsQuote(n) || (g.hdr == "" && db != "default"))) {
 				continue
 			}
 			cands = append(cands, g.d.Meas[db+"\x00"+n])
 		}
 	}
+	if len(cands) == 0 { // every name needs quotes: give up on plainness for this text
+		g.plain = false
+		return g.tableSource(avoid)
+	}
 	m := cands[rapid.IntRange(0, len(cands)-1).Draw(g.t, "meas")]
 	ref := ""
-	unq := g.hdr != "" || (m.DB == "default" && rapid.Bool().Draw(g.t, "unqualified"))
+	unq := g.hdr != "" || (m.DB == "default" && (g.plain || rapid.Bool().Draw(g.t, "unqualified")))
 	if unq && g.cteNames[strings.ToLower(m.Name)] && verifkit.Excluded(c16FCteShadow) {
 		// a CTE of that name is in the text: an unqualified reference would
 		// be the known-finding shape
@@ -474,7 +485,7 @@ func (g *c16Gen) tableSource(avoid map[string]bool) c16Src {
 
 func (g *c16Gen) colRef(s c16Src, c qCol) string {
 	n := c.Name
-	if c16NeedsQuote(n) || rapid.IntRange(0, 7).Draw(g.t, "qcol") == 0 {
+	if c16NeedsQuote(n) || (!g.plain && rapid.IntRange(0, 7).Draw(g.t, "qcol") == 0) {
 		g.feat["quoted"] = true
 		n = qIdent(n)
 	}
@@ -500,8 +511,34 @@ func c16ColsOfType(srcs []c16Src, types ...string) (out []struct {
 	return
 }
 
+// plainCols drops columns whose names need quoting when the text must stay quote-free.
+func (g *c16Gen) plainCols(cs []struct {
+	s c16Src
+	c qCol
+}) []struct {
+	s c16Src
+	c qCol
+} {
+	if !g.plain {
+		return cs
+	}
+	out := cs[:0:0]
+	for _, x := range cs {
+		if !c16NeedsQuote(x.c.Name) {
+			out = append(out, x)
+		}
+	}
+	return out
+}
+
+// c16PlainOK: no quote characters and none of the FROM-keyword functions.
+func c16PlainOK(e string) bool {
+	l := strings.ToLower(e)
+	return !strings.ContainsAny(e, "'\"") && !strings.Contains(l, "extract") && !strings.Contains(l, "substring") && !strings.Contains(l, "trim(")
+}
+
 func (g *c16Gen) pickCol(srcs []c16Src, types ...string) (string, qCol, bool) {
-	cs := c16ColsOfType(srcs, types...)
+	cs := g.plainCols(c16ColsOfType(srcs, types...))
 	if len(cs) == 0 {
 		return "", qCol{}, false
 	}
@@ -511,10 +548,20 @@ func (g *c16Gen) pickCol(srcs []c16Src, types ...string) (string, qCol, bool) {
 
 // scalar returns a row-wise expression and its type class.
 func (g *c16Gen) scalar(srcs []c16Src) (string, string) {
+	for i := 0; i < 6; i++ {
+		e, ty := g.scalar0(srcs)
+		if !g.plain || c16PlainOK(e) {
+			return e, ty
+		}
+	}
+	return "1", "BIGINT"
+}
+
+func (g *c16Gen) scalar0(srcs []c16Src) (string, string) {
 	for tries := 0; tries < 4; tries++ {
 		switch rapid.IntRange(0, 11).Draw(g.t, "scalar") {
 		case 0, 1, 2:
-			cs := c16ColsOfType(srcs, "BIGINT", "DOUBLE", "VARCHAR", "BOOLEAN", "TIMESTAMPTZ")
+			cs := g.plainCols(c16ColsOfType(srcs, "BIGINT", "DOUBLE", "VARCHAR", "BOOLEAN", "TIMESTAMPTZ"))
 			if len(cs) == 0 {
 				continue
 			}
@@ -606,6 +653,16 @@ func (g *c16Gen) aggregate(srcs []c16Src) (string, string) {
 
 // pred returns a predicate over non-time-literal comparisons.
 func (g *c16Gen) pred(srcs []c16Src) string {
+	for i := 0; i < 6; i++ {
+		e := g.pred0(srcs)
+		if !g.plain || c16PlainOK(e) {
+			return e
+		}
+	}
+	return "1 = 1"
+}
+
+func (g *c16Gen) pred0(srcs []c16Src) string {
 	for tries := 0; tries < 5; tries++ {
 		switch rapid.IntRange(0, 12).Draw(g.t, "pred") {
 		case 11, 12:
@@ -832,6 +889,11 @@ func qIdentIfNeeded(n string) string {
 
 func (g *c16Gen) outName() string {
 	g.nOut++
+	if rapid.IntRange(0, 4).Draw(g.t, "fromalias") == 0 {
+		// an identifier that merely ends in "from" (valid_from, peak_from)
+		g.feat["alias-ending-in-from"] = true
+		return fmt.Sprintf("x%d_from", g.nOut)
+	}
 	return fmt.Sprintf("x%d", g.nOut)
 }
 
@@ -932,7 +994,7 @@ func (g *c16Gen) selectStmt(depth int, top bool) []qCol {
 				g.kw("AS")
 			}
 			n := g.outName()
-			if rapid.IntRange(0, 6).Draw(g.t, "qalias") == 0 {
+			if !g.plain && rapid.IntRange(0, 6).Draw(g.t, "qalias") == 0 {
 				g.feat["quoted"] = true
 				n = "X " + n
 				g.raw(qIdent(n))
@@ -1102,6 +1164,9 @@ func (g *c16Gen) statement() {
 				verifkit.CountExcluded(c16FCteShadow)
 				name = fmt.Sprintf("c_%d", i)
 			}
+			if g.plain && c16NeedsQuote(name) {
+				name = fmt.Sprintf("c_%d", i)
+			}
 			written := g.ident(name)
 			g.cteNames[strings.ToLower(name)] = true
 			g.raw(written)
@@ -1161,6 +1226,12 @@ func c16GenQuery(t *rapid.T, d *c16Data) c16Query {
 	}
 	g := &c16Gen{t: t, d: d, hdr: hdr, kwStyle: rapid.IntRange(0, 3).Draw(t, "kwstyle"),
 		unqual: map[string]bool{}, cteNames: map[string]bool{}, feat: map[string]bool{}}
+	// a quarter of the texts stay free of quotes, comments and FROM-keyword
+	// functions: only those are eligible for the header single-table fast path
+	g.plain = rapid.IntRange(0, 3).Draw(t, "plain") == 0
+	if g.plain {
+		g.feat["plain-text"] = true
+	}
 	g.statement()
 	// the CTE-shadow exclusion must hold for references emitted AFTER a CTE
 	// name was chosen as well as before; tableSource/statement handle both
